@@ -7,6 +7,7 @@ Argument shapes ("signatures"):  s = scalar atom, d = scalar atom whose [i] is i
 derivative node dx(..) does), v = d×1 column Matrix of atoms, t = Tuple of d atoms, m = d×d Matrix of atoms.  Placeholder atoms are ScalarFunctions named @k (scalar), @k_i, @k_i_j."""
 import itertools
 
+from harness.common import time_limit
 from harness.exprser import Ser
 from harness.sexp import dumps
 
@@ -90,36 +91,120 @@ def entries():
     out = []
     for dim in (1, 2, 3):
         atom = placeholders(dim)
+        # the self-indexing scalar only matters in 1D (a 1D gradient is the bare node dx(u)); in
+        # higher dimensions Matrix(u) on such an object would never terminate
+        SIGS_D = SIGS if dim == 1 else [x for x in SIGS if x != 'd']
         for op in UNARY + BINARY_D:
             for logical in (False, True):
                 cname = '%s%s_%dd' % ('Logical' if logical else '', op, dim)
                 cls = getattr(ev, cname, None)
                 n = 2 if op in BINARY_D else 1
-                for sig in itertools.product(SIGS, repeat=n):
+                for sig in itertools.product(SIGS_D, repeat=n):
                     sigs = ''.join(sig)
                     if cls is None:
                         out.append((cname, sigs, dim, logical, n, ('absent',)))
                         continue
                     args = [make_arg(atom, k, s, dim) for k, s in enumerate(sig)]
                     try:
-                        r = cls(*args)
+                        with time_limit(10):
+                            r = cls(*args)
                         out.append((cname, sigs, dim, logical, n, ('ok', ser.ser(r))))
                     except Exception as e:
                         out.append((cname, sigs, dim, logical, n, ('err', type(e).__name__)))
         for op in BINARY_A:
             cname = '%s_%dd' % (op, dim)
             cls = getattr(ev, cname, None)
-            for sig in itertools.product(SIGS, repeat=2):
+            for sig in itertools.product(SIGS_D, repeat=2):
                 sigs = ''.join(sig)
                 if cls is None:
                     out.append((cname, sigs, dim, False, 2, ('absent',)))
                     continue
                 args = [make_arg(atom, k, s, dim) for k, s in enumerate(sig)]
                 try:
-                    r = cls(*args)
+                    with time_limit(10):
+                        r = cls(*args)
                     out.append((cname, sigs, dim, False, 2, ('ok', ser.ser(r))))
                 except Exception as e:
                     out.append((cname, sigs, dim, False, 2, ('err', type(e).__name__)))
+    return out
+
+
+# the well-typed entries: (operator, signature) -> rank of the result (0 scalar, 1 vector, 2 matrix)
+WELL_TYPED_1 = {
+    'Grad': {'s': 1, 'd': 1, 'v': 2},
+    'Div': {'v': 0, 'm': 1},
+    'Curl': {'v': None},        # rank depends on the dimension: 3 -> vector, 2 -> scalar
+    'Rot': {'s': 1},
+    'Laplace': {'s': 0, 'v': 1},
+    'Hessian': {'s': 2},
+}
+WELL_TYPED_2 = {
+    'Bracket': {'ss': 0},
+    'Dot': {'vv': 0, 'mv': 1, 'vm': 1},
+    'Cross': {'vv': None},      # 3 -> vector, 2 -> scalar
+    'Inner': {'vv': 0, 'mm': 0},
+}
+OP1 = {'Grad': 'grad', 'Div': 'div', 'Curl': 'curl', 'Rot': 'rot', 'Laplace': 'laplace', 'Hessian': 'hessian'}
+OP2 = {'Bracket': 'bracket', 'Dot': 'dot', 'Cross': 'cross', 'Inner': 'inner'}
+
+
+def placeholder_term(k, sig, dim):
+    if sig in ('s', 'd'):
+        return '(.sf "@%d" .undef)' % k
+    if sig == 'v':
+        return '(.mat %d 1 [%s])' % (dim, ', '.join('(.sf "@%d_%d" .undef)' % (k, i) for i in range(dim)))
+    if sig == 'm':
+        return '(.mat %d %d [%s])' % (dim, dim, ', '.join('(.sf "@%d_%d_%d" .undef)' % (k, i, j) for i in range(dim) for j in range(dim)))
+    raise ValueError(sig)
+
+
+def theorems(es):
+    """one Lean theorem per well-typed table entry: the formula equals the classical definition"""
+    out = []
+    for cname, sigs, dim, logical, n, outc in es:
+        op = cname.replace('Logical', '').rsplit('_', 1)[0]
+        table = WELL_TYPED_1 if n == 1 and op in WELL_TYPED_1 else WELL_TYPED_2 if op in WELL_TYPED_2 else None
+        if table is None or op not in table or sigs not in table[op]:
+            continue
+        if outc[0] != 'ok':
+            continue          # (an entry that raises is a failure of "does not fail on the fragment": see below)
+        if op in ('Curl', 'Cross', 'Rot', 'Bracket') and dim == 1:
+            continue
+        if op in ('Rot', 'Bracket') and dim != 2:
+            continue
+        rank = table[op][sigs]
+        if rank is None:
+            rank = 1 if dim == 3 else 0
+        if dim == 1 and op == 'Grad' and sigs in ('s', 'd'):
+            rank = 0          # in 1D the gradient of a scalar is returned as the scalar dx(u)
+        if dim == 1 and op in ('Div',) and sigs == 'm':
+            continue
+        ri = {0: 1, 1: dim, 2: dim}[rank]
+        rj = {0: 1, 1: 1, 2: dim}[rank]
+        args = ' '.join(placeholder_term(k, s, dim) for k, s in enumerate(sigs))
+        node = '(.op1 .%s %s)' % (OP1[op], args) if n == 1 else '(.op2 .%s %s)' % (OP2[op], args)
+        ident = '%s_%s' % (cname, sigs)
+        out.append((ident, dim, logical, ri, rj, node))
+    return out
+
+
+def expected_entries():
+    """(class, signature) pairs that must exist and return a formula: the supported fragment does not fail"""
+    out = []
+    for dim in (1, 2, 3):
+        for lg in ('', 'Logical'):
+            for op, sigs in (('Grad', 's'), ('Grad', 'v'), ('Div', 'v'), ('Laplace', 's'), ('Laplace', 'v'), ('Hessian', 's')):
+                out.append(('%s%s_%dd' % (lg, op, dim), sigs))
+            if dim > 1:
+                out.append(('%sDiv_%dd' % (lg, dim), 'm'))
+                out.append(('%sCurl_%dd' % (lg, dim), 'v'))
+            if dim == 2:
+                out.append(('%sRot_2d' % lg, 's'))
+                out.append(('%sBracket_2d' % lg, 'ss'))
+        for op, sigs in (('Dot', 'vv'), ('Inner', 'vv')):
+            out.append(('%s_%dd' % (op, dim), sigs))
+        if dim > 1:
+            out += [('Dot_%dd' % dim, 'mv'), ('Dot_%dd' % dim, 'vm'), ('Inner_%dd' % dim, 'mm'), ('Cross_%dd' % dim, 'vv')]
     return out
 
 
@@ -161,7 +246,33 @@ def generate(ctx=None):
     lines.append(']')
     lines.append('')
     lines.append('end Sympde.Gen')
-    return {'SympdeModel/Gen/Leaf.lean': '\n'.join(lines) + '\n'}
+    # ---- theorems: every well-typed entry equals the classical definition (Sem/DenG.lean)
+    th = ['/- GENERATED by harness/translate/leaf.py — do not edit.  One theorem per well-typed entry of the leaf',
+          '   table: the component formula returned by the current code equals the classical definition, in every',
+          '   differential ring.  A changed formula changes Gen/Leaf.lean and the theorem stops compiling. -/',
+          'import SympdeModel.Gen.Leaf',
+          'import SympdeModel.Lemmas.Leaf',
+          'namespace Sympde.Gen',
+          'open Sympde E',
+          'variable {K : Type} [CommRing K] [Algebra ℚ K]',
+          '']
+    tl = theorems(es)
+    for ident, dim, logical, ri, rj, node in tl:
+        th.append('theorem leaf_%s (S : DRing K) (i j : Nat) (hi : i < %d) (hj : j < %d) :' % (ident, ri, rj))
+        th.append('    den S %s i j = denG S %d %s %s i j := by' % (ident, dim, 'true' if logical else 'false', node))
+        th.append('  leaf_tac %s i j' % ident)
+        th.append('')
+    have = {(c, sg) for c, sg, _, _, _, o in es if o[0] == 'ok'}
+    missing = [x for x in expected_entries() if x not in have]
+    th.append('/-- entries of the supported fragment for which the current code returns no formula (raises, or the')
+    th.append('    class does not exist): must be empty ("on the supported operator fragment lowering does not fail") -/')
+    th.append('def missingEntries : List (String × String) := [%s]' % ', '.join('("%s", "%s")' % x for x in missing))
+    th.append('')
+    th.append('theorem fragment_total : missingEntries = [] := by decide')
+    th.append('')
+    th.append('end Sympde.Gen')
+    return {'SympdeModel/Gen/Leaf.lean': '\n'.join(lines) + '\n',
+            'SympdeModel/Gen/LeafThms.lean': '\n'.join(th) + '\n'}
 
 
 if __name__ == '__main__':
